@@ -17,6 +17,7 @@ structure FmtOp where
   name : String        -- JSON key, e.g. "add"
   prec2 : Int          -- 2 * keywords.precedence[binary_ops[op]]
   ordered : Bool
+  chains : Bool := true   -- `a op b op c` is written for `(a op b) op c`; when false the left operand is isolated too
   info : OpInfo        -- the row of the parser's operator table for the text it writes
   deriving Inhabited
 
@@ -34,7 +35,7 @@ def bare (prec2 : Int) (o : FmtOp) : Bool :=
 
 /-- the `prec` an operand is dispatched with (`op_prec + 0.5`, `op_prec - 0.5`, or `op_prec`) -/
 def slotPrec (o : FmtOp) (slot : Nat) : Int :=
-  if o.ordered then (if slot == 0 then o.prec2 + 1 else o.prec2 - 1) else o.prec2
+  if o.ordered then (if slot == 0 && o.chains then o.prec2 + 1 else o.prec2 - 1) else o.prec2
 
 def body (o : FmtOp) (l r : E) : E := .bin o.info l r
 
